@@ -45,6 +45,11 @@ CHECKS.update({
              text="Generated-input search: module split into 1..4 files with adversarial final characters; main TU declares/invokes one initialiser per part in order; every part's TU equals wrapping its text alone; MATLAB wrap(list) == wrap(joined); scripts byte-identical to the library API (1 in 8 cases). Linking/importing the parts is left to C04.",
              note="Trusted: section markers in the harness's module template (vlib.wraps.PYBIND_TPL), which is 'the user-supplied module template'.", ref="3/C16"),
 })
+CHECKS.update({
+ 'C17': dict(tech="Hypothesis-generated interfaces + Doxygen XML trees (faults, Unicode texts) + three oracles: marker-based reference selection, independent C++ string-literal decoder vs extracted text, literal-deletion isolation",
+             text="Generated-input search: selection (overloads by parameter names, optional parameters, k-th overload), escaping (decoded literal == extracted text for all XML-1.0 Unicode incl. quotes, backslashes, C1 controls, NBSP, astral), empty docstring for missing/partial/ill-formed XML without an error, and identity of the rest of the TU.",
+             note="Trusted: the C++ literal decoder in checks/c17.py (greedy \\x, 3-digit octal, UCNs), vlib.pyscan. A g++ compile of the literals is not part of the registered commands.", ref="3/C17"),
+})
 PENDING = {}
 
 def main():
